@@ -63,7 +63,8 @@ Reading of the property (what the oracle demands; chosen so that minimally repai
   are written in one of those versions); deletions and insertions use the old sub-kinds (trailing_score_note,
   no_played_note, hammer_bounce, trailing_played_note) at random.  A quarter of these files also get duplicate /
   conflicting lines injected (de-duplication on the old formats).
-* Every case runs under a wall-clock limit; a writer/reader that does not terminate is a failure.
+* Every case runs under a limit of CPU time (60 s user+system; harness/cpulimit.py); a writer/reader that does not
+  terminate is a failure.
 * Round 4: performed times reach hours (late passages) and clocks are as fine as 10000 ticks per quarter at 60000
   microseconds per quarter; every written and loaded tick must be the nearest tick of the binary64 seconds of the
   saved note / control dictionaries (exact rational arithmetic, clauses perf / text-tick / pedal).  Ticks stay below
@@ -74,6 +75,26 @@ Reading of the property (what the oracle demands; chosen so that minimally repai
   format stores no measure lengths, so a reader can only close the last bar with that signature - and is not the
   pickup.  Measures AFTER it exist legitimately when something stored sounds or stands there (a stored note tied
   across the bar line, a later signature): add_measures fills the timeline; they are not judged.
+* Round 5: the score's own `Measure.number` is whatever scores carry (by position, both halves of a split bar under
+  one number, repeated numbers of an unfolded repeat, gaps, counts from 0 or 5, decreasing, arbitrary, None): the file
+  numbers its measures by POSITION (0 or 1, 2, 3 ...; clause text-snote / text-sig as before) and every saved measure
+  that holds a stored note is demanded back where it started (clauses measure / measure-extra / measure-end).
+  A bar may be split in two measures by a double bar (never the first or the last bar).  When the FIRST bar holding
+  a stored note is such a short half, Part.beat_map of the loaded score counts it as an anacrusis: the beat-position
+  clauses are then not applied (the quarter-position clauses are); when the LAST stored bar is one, the reader closes
+  it with the full bar length and measure-chain is not judged (the format stores no measure lengths).
+* Round 5: durations and offsets are not only dyadic: quintuplets, septuplets and nonuplets mixed in one piece
+  (divisions 20 ... 1008 per quarter, every written fraction within the format's bound of 1024); every loaded duration
+  is demanded to the division (score-duration-q: exact fractions of a quarter).  Divisions with 5 | divs and 16 | divs are
+  left out: there a beat time can be k/160 exactly, a decimal tie that `'%.4f'` resolves by the binary64 neighbour.
+* Round 5 (kind "respell"): the durations / offsets of a written file re-spelled with tuple divisors (`1/4/3`) and
+  additive components (`1/4+1/8`) - the spellings of hand-made and older files - load to the same score (all loaded-
+  triple clauses; the text clauses do not apply to an edited text).
+* Round 5: a score note without a voice / without a staff is not demanded back with one (the format stores nothing;
+  the reader assigns voice 1 / max+1 and a staff by pitch - compared with the model, stream attrs); staff numbers of two
+  digits come back as written (fix C08-18); ornaments, fermatas and fingerings on the snote line change nothing.
+* Round 5 (kind "pid"): the id of a performed note as written and read (`format_pnote_id`) is stable: ids that follow the
+  convention `n...` are kept, writing / reading twice changes nothing more.
 """
 import io
 import contextlib
@@ -91,18 +112,29 @@ from core import Eval
 PROPERTY = "C08"
 DRIVER = "drv_c08"
 PROPS = ["PartituraModel.Props.C08", "PartituraModel.Props.C08Mixed", "PartituraModel.Props.C08Order",
-         "PartituraModel.Props.C08Format", "PartituraModel.Props.C08Last"]
+         "PartituraModel.Props.C08Format", "PartituraModel.Props.C08Last", "PartituraModel.Props.C08Round5", "PartituraModel.Props.C08Attr",
+         "PartituraModel.Props.C08Compose"]
 TRUSTED = [
     "C07 (line level): the text of a line <-> its fields; the correspondence reads the written text with its own "
     "regular expressions and the reader's input with the real line parsers; the synthesised old-format files are "
     "written by the line classes of matchlines_v0 themselves",
     "'%.4f' rendering of a beat time and float() of that text = nearest multiple of 1/10000 (model: dec4, exact "
-    "rationals; beat times k/(4*divs) with divs <= 480 never sit on a x.00005 boundary)",
-    "binary64 arithmetic of part_from_matchfile (positions in quarters, divs*(...) before round/int) is modelled "
-    "exactly; the implementation's values are within 1e-9 of the exact ones and never near a rounding boundary "
-    "for divisions <= 4*480 (checked by the comparison, not proved); in the synthesised old-format files the beat "
-    "times are binary64 reprs (since fix C08-17 the last bar is closed with the signature at its first stored note, "
-    "so its END is compared for them too)",
+    "rationals, ties to even).  A tie x.xxxx5 that is a binary64 number (denominator a power of two) is rounded the "
+    "same way by Python; ties that are not (denominator 2^5 * 5^k) need 5 | divs and 16 | divs - such divisions are not "
+    "generated",
+    "binary64 arithmetic of part_from_matchfile: the POSITIONS in quarters (divs*(...) before round) are modelled in exact "
+    "rationals; the implementation's values are within 1e-9 of the exact ones and never near a rounding boundary for "
+    "the generated divisions (checked by the comparison, not proved).  The DURATIONS int(divs*4*num/(den*tup)) are "
+    "modelled in binary64 (Model/MatchFloat.lean on C03's Model/Binary64.readFloat: correct rounding to 53 bits, ties "
+    "to even, exponent range not modelled) and proved equal to the exact ones (durDivsF_exact); in the synthesised "
+    "old-format files the beat times are binary64 reprs (since fix C08-17 the last bar is closed with the signature "
+    "at its first stored note, so its END is compared for them too)",
+    "Python's int(text) is modelled on plain ASCII digit strings and re's prefix matches v\\d+, \\d+, fingering\\d+ on "
+    "ASCII digits (Model/MatchAttr.lean: what f'v{voice}' / f'staff{staff}' write); list membership / str.startswith as "
+    "equality / prefix of character lists",
+    "translate_c08.py reads the literal pieces by PROBING the live functions (defaults through inspect.signature, the "
+    "rest through matchfile_from_alignment / part_from_matchfile on small probe scores); only the two name tuples of "
+    "importmusicxml.get_articulations / get_ornaments are read from the syntax tree (first tuple of >= 5 strings)",
     "seconds_to_midi_ticks / midi_ticks_to_seconds: binary64 product modelled exactly (C12); times up to hours and "
     "clocks up to 10000 ticks per quarter / 60000 us per quarter keep the product below 2^31 ticks, far from where "
     "binary64 loses a tick (2^53); PerformedPart.note_array stores ticks as int32 (larger ticks: outside the domain)",
@@ -131,10 +163,18 @@ PARTIAL = [
     "bars_recovered: the first stored note of the bar must not start exactly at the end of the last stored note "
     "unless it lies in the stretch of the last time signature (hend; the importer's beat-type map carries an extra "
     "end point there) - mirrored by the model and compared",
-    "the theorems are about the pieces (encode, barTime, notePos, durDivs, importDivs, validate, lexsort); that "
-    "part_from_matchfile composes them as the model's `reconstruct` does (sorting of the snotes, first note of each "
-    "bar, fallback to OnsetInBeats not firing, signatures) is COMPARED - also end to end: the model's write-then-"
-    "read `Score.roundTrip` of the saved score against the loaded part (requests rtq / rtn) - not proved",
+    "composition (round 5): reconstruct_spec (every loaded note / bar line of the model's `reconstruct` is built from "
+    "its own line and the first line of its bar by barTime / notePos / durDivs / importDivs - all inputs), "
+    "roundtrip_durations (write-then-read, no side condition), roundtrip_onsets and roundtrip_bars (write-then-read; "
+    "hypotheses: WrittenScore, stored notes at or after the first time signature, the grid condition, reader's "
+    "divisions < 1250, time-signature changes on beat times four decimals hold - the general bound with knotErr stays "
+    "in onset_roundtrip -, and hTS: the time-signature lines are read as written, i.e. every signature lies in a "
+    "measure and none restates the one before it - a decidable condition on the score, discharged by `decide` in the "
+    "example, not proved from a well-formedness predicate) are PROVED.  Not proved: that the OnsetInBeats fallback does "
+    "not fire (the composed onsets are stated for notes on which it did not; the number of fallbacks is compared, "
+    "requests dec / rtq: always 0), the positions of the signatures and the end of the last bar in the composition "
+    "(last_bar_closed is about the piece), and - the tie itself - that part_from_matchfile is `reconstruct`: COMPARED "
+    "(requests dec / decn / decr / durf / attrs on the text side, rtq / rtn end to end)",
     "order of the written lines: line_order (permutation, sorted by the documented key, stable) and "
     "time_map_places (the map passes through the matched onsets and is monotone when they are performed in score "
     "order) are proved; the knots themselves (means of float32 onsets per score onset, grace-only onsets left out) "
@@ -149,13 +189,30 @@ PARTIAL = [
     "tick_stable / tick_moves speak about exact rationals; that the implementation takes the seconds from the note "
     "dictionaries (binary64) and not from a narrower copy is what the oracle clauses perf / text-tick check on late "
     "passages and fine clocks",
-    "FractionalSymbolicDuration.bound_integers (numerator or denominator > 1024) is outside the generated domain",
-    "additive duration components and tuple divisors occur only in the fixture files (compared, not proved)",
+    "FractionalSymbolicDuration.bound_integers (numerator or denominator > 1024; the bound itself is regenerated: "
+    "lits_extracted) is outside the generated domain",
+    "durDivsF_exact / loaded_durations_exact need divisions*4*numerator < 2^53 (binary64 integers); components_sum "
+    "needs every additive component on the reader's grid (true for the reader's own divisions: the denominator of a "
+    "sum is the lcm of its components' denominators - FractionalSymbolicDuration.__add__ is not modelled, the harness "
+    "sends the summed numerator / denominator the parser produced)",
+    "attrs_roundtrip assumes articulation / ornament names that are `plain` (not `s`, `stac`, `leftOutTied`, `grace`, "
+    "no prefix `staff`, `v<digit>`, <digit>): decidable; all names of the live MusicXML tables are "
+    "(musicxml_names_plain).  Fingerings and ornaments are written but not demanded back (the reader keeps the first "
+    "fingering only; not in the property); the tie mark is read (`tied`) but what tie_notes makes of it is C11",
+    "Measure.number is not part of the model: the writer does not look at it (proved on the live code by the probe "
+    "`secondMeasureDuplicate` of lits_extracted, and for the model by measure_numbers_by_position)",
+    "the time-map knots are still exact means of the float32 onsets in the model (binary32 arithmetic of the mean "
+    "itself not modelled): keys compared with a tolerance, see TRUSTED",
 ]
-RULE = ("seeded random single-divs parts (13 division values, 18 time signatures x/2 ... x/16 incl. changes of the beat "
+RULE = ("seeded random single-divs parts (13 dyadic/triplet division values; 30% RICH pieces: divisions 20 ... 1008 whose notes mix "
+        "quintuplet, septuplet, nonuplet ... units, durations 1-7 units; 18 time signatures x/2 ... x/16 incl. changes of the beat "
         "type, pickups, changes of time and key signature at bar starts, 1-9 bars, 12% planned shapes: a long stretch in "
         "a metre counted in eighths/sixteenths (or quarters/halves) followed by a short final section in the other kind; "
-        "1-3 voices, 1-2 staves, chords, ties within and across bars, grace notes, rests, articulations; 30% built through "
+        "12% with a bar split in two measures by a double bar (optionally a key signature there); Measure.number by position "
+        "(42%) or: shared by the halves of a split bar, duplicated, repeating (unfolded), with gaps, from 0 / from k, "
+        "decreasing, random, None, partly None; "
+        "1-3 voices (6% without a voice number, 8% two-digit numbers), 1-2 staves (6% none, 8% two-digit numbers), chords, ties within and across "
+        "bars, grace notes, rests, articulations, 30% with ornaments / fermatas / fingerings; 30% built through "
         "a construction history with read-only views in between, gen_score 'warm') x random performances (tick grid and "
         "off grid, 6 ppq x 6 mpq choices, 30% LATE passages one minute to eight hours into the recording on clocks up "
         "to 10000 ticks per quarter and down to 60000 us per quarter, sustain/soft/other controllers incl. duplicates, "
@@ -163,7 +220,8 @@ RULE = ("seeded random single-divs parts (13 division values, 18 time signatures
         "ornaments, shuffled; 5% without any match, 3% with a single match); every 4th case is re-read after injecting "
         "duplicate / conflicting lines; every 7th with empty lines inserted (also before the version line); every 3rd "
         "is also written as a version 0.1.0-0.5.0 file with the line classes of matchlines_v0 and loaded (a quarter "
-        "of those with injected duplicates); plus the repository's match files. "
+        "of those with injected duplicates); every 6th is re-read with its durations / offsets re-spelled with tuple "
+        "divisors and additive components; 2 lists of 40 arbitrary performed-note ids; plus the repository's match files. "
         "distinct = distinct sub-seed (or file) and kind; non-trivial = a file was written and read")
 LEVEL_TEXT = ("Lean 4 theorems about an executable model of the match-file time arithmetic (exporter: measure:beat + "
               "offset/duration fractions; importer: divisions = lcm of denominators, beats->quarters map over time "
@@ -171,12 +229,19 @@ LEVEL_TEXT = ("Lean 4 theorems about an executable model of the match-file time 
               "bar closed with the signature at its first note), the tick arithmetic (a tick survives a perturbation of "
               "the seconds iff it stays below half a tick), the reader's de-duplication rule, the alignment extraction and the order of the written lines, for all "
               "inputs, plus theorems stating what the format cannot hold (bars without a stored note, bar lines off the "
-              "reader's grid); the model is tied to the code by comparing, on generated scores/performances/alignments "
+              "reader's grid); round 5: the COMPOSITION of the pieces (reconstruct_spec; write-then-read roundtrip_durations, "
+              "roundtrip_onsets, roundtrip_bars), the loaded durations in binary64 (exact whenever one rounded division follows "
+              "exact integer products), measure numbers by position and one bar per distinct number, the score attributes "
+              "(voice, staff, staccato / accent, grace through the attribute list, for every note and every plain name), "
+              "performed-note ids, pedal lines, and the literal pieces of the live source regenerated on every run "
+              "(Gen/C08Lits.lean: defaults, header order, pedal controllers, measure numbering, decimals, fraction bound, MusicXML "
+              "name tables, supported articulations, staff numbers); the model is tied to the code by comparing, on generated scores/performances/alignments "
               "(1.0.0 files written by save_match, 0.1.0-0.5.0 files synthesised with the old line classes) and on "
               "the repository's match files, the written text (score fields, ticks, pedal lines, line order) and the "
               "loaded part/performance/alignment with the model's output, including the model's own write-then-read "
               "composition.")
 SEARCH_LIMIT = 1500
+STAFF_SPLIT = 55       # default of importmatch.add_staffs (Gen/C08Lits.staffSplit, theorem lits_extracted)
 
 REPO = os.environ.get("VERIF_REPO", "/repo")
 FIXDIR = os.path.join(REPO, "tests", "data", "match")
@@ -194,12 +259,95 @@ ALL_ARTICULATIONS = ["accent", "strong-accent", "staccato", "tenuto", "detached-
                      "scoop", "plop", "doit", "falloff", "breath-mark", "caesura", "stress", "unstress", "soft-accent"]
 
 
+# round 5: divisions whose divisors mix tuplets (4 * L <= 1024: every written fraction stays inside the format)
+RICH_L = [30, 60, 120, 180, 180, 45, 90, 90, 21, 42, 84, 105, 210, 35, 70, 140, 63, 126, 252, 36, 20]
+RICH_K = (1, 2, 3, 4, 5, 6, 7, 8, 9, 10, 12, 14, 15, 16, 18, 20)
+
+
+def measure_numbers(rng, n, first_half=None):
+    """`Measure.number` of the n measures.  The exporter numbers the measures of the FILE by position (0 or 1, 2, 3 ...)
+    whatever the score's own numbers are; the reader makes one bar per distinct number of the file.  Half of the
+    scores are numbered by position; the others carry what scores carry: both halves of a split bar under one
+    number, repeated numbers (an unfolded repeat: 1 2 3 1 2 3), gaps, a count from 0 or from 5, decreasing or
+    arbitrary numbers, no numbers at all (None) or some missing."""
+    scheme = rng.choice(["pos"] * 8 + ["dup", "dup", "repeat", "repeat", "gaps", "from0", "fromk", "decreasing",
+                                       "random", "none", "some-none"])
+    if scheme == "pos":
+        nums = list(range(1, n + 1))
+        if first_half is not None and rng.random() < 0.6:
+            nums = [i + 1 if i <= first_half else i for i in range(n)]      # both halves of the split bar: one number
+    elif scheme == "dup":
+        nums, c = [], 0
+        for i in range(n):
+            if i == 0 or rng.random() >= 0.4:
+                c += 1
+            nums.append(c)
+        if len(set(nums)) == n and n > 1:
+            j = rng.randint(1, n - 1)
+            nums = [x if i < j else x - 1 for i, x in enumerate(nums)]
+    elif scheme == "repeat":
+        per = rng.randint(1, max(1, n - 1))
+        nums = [i % per + 1 for i in range(n)]
+    elif scheme == "gaps":
+        nums, c = [], 0
+        for i in range(n):
+            c += rng.randint(1, 3)
+            nums.append(c)
+    elif scheme == "from0":
+        nums = list(range(n))
+    elif scheme == "fromk":
+        k0 = rng.randint(2, 40)
+        nums = list(range(k0, k0 + n))
+    elif scheme == "decreasing":
+        nums = list(range(n, 0, -1))
+    elif scheme == "random":
+        nums = [rng.randint(0, 5) for _ in range(n)]
+    elif scheme == "none":
+        nums = [None] * n
+    else:
+        nums = [None if rng.random() < 0.4 else i + 1 for i in range(n)]
+    return scheme, nums
+
+
+ALL_ORNAMENTS = ["trill-mark", "turn", "delayed-turn", "inverted-turn", "delayed-inverted-turn", "vertical-turn",
+                 "inverted-vertical-turn", "shake", "wavy-line", "mordent", "inverted-mordent", "schleifer", "tremolo", "haydn",
+                 "other-ornament"]
+
+
+def decorate(o, n):
+    """ornaments, fermata and fingerings of a generated note on the score object"""
+    import partitura.score as S
+
+    if n.get("orn"):
+        o.ornaments = list(n["orn"])
+    if n.get("fermata"):
+        o.fermata = S.Fermata(o)
+    if n.get("fing"):
+        o.technical = [S.Fingering(f) for f in n["fing"]]
+
+
 def gen_part(rng, tier="quick"):
     """single-divs part with explicit measures (optional pickup), ts/ks changes at bar starts"""
     divs = rng.choice([1, 2, 3, 4, 4, 6, 8, 12, 16, 24, 48, 96, 480])
     ks_ = [k for k in (1, 2, 3, 4, 6, 8, 12) if divs % k == 0]
     k = rng.choice(ks_)
     unit = divs // k
+    # round 5: NON-DYADIC rhythms.  The reader's divisions are the lcm of the written denominators; a duration of n/d
+    # whole notes becomes int(divs * 4 * n / d) divisions - exact only because ONE correctly rounded division follows
+    # exact integer products.  Quintuplets, septuplets and nonuplets mixed in one piece (divisions 45 ... 720 per
+    # quarter, durations such as 7/20, 17/7, 41/20, 49/24 of a whole note) are where a product with an already rounded
+    # quotient falls one ulp below the integer (about 5% of the durations at 45, 90, 180, 360, 720, 21 ... 84, 105 ...)
+    rich = rng.random() < 0.3
+    unit_pool = [unit]
+    if rich:
+        L = rng.choice(RICH_L)
+        # beat times are written with four decimals: a beat time k/160 (= x.xxxx5 exactly, but not a binary64 number)
+        # is rounded by '%.4f' according to the float below or above it, which no exact model decides; such ties
+        # need 5 | divs and 16 | divs (beat = t * beat_type / (4 * divs), beat types >= 2) - left out
+        divs = L * rng.choice([m for m in (1, 1, 2, 4) if not ((L * m) % 5 == 0 and (L * m) % 16 == 0)])
+        ks_ = [k for k in RICH_K if L % k == 0]
+        unit_pool = [divs // k for k in rng.sample(ks_, min(len(ks_), rng.choice([2, 3, 4, 6])))]
+        unit = divs // L
     n_measures = rng.randint(1, 5)
     voices = rng.choice([1, 1, 2, 3])
     staves = rng.choice([1, 2, 2])
@@ -259,29 +407,59 @@ def gen_part(rng, tier="quick"):
                 d["ts"].append([t, beats, bt])
         bl = barlen(beats, bt)
         if m == 0 and pickup:
-            bl = unit * rng.randint(1, bl // unit - 1)
+            pu = rng.choice(unit_pool)
+            bl = pu * rng.randint(1, bl // pu - 1) if bl // pu > 1 else unit * rng.randint(1, bl // unit - 1)
         bars.append((t, t + bl))
         if rng.random() < (0.85 if m == 0 else 0.2):
             d["ks"].append([t, rng.randint(-7, 7), rng.choice(["major", "minor", "major", "minor", None])])
         t += bl
-    d["measures"] = [[s, e, i + 1] for i, (s, e) in enumerate(bars)]
+    # round 5: a bar split in two measures by a double bar (3 + 1 quarters of a 4/4 bar; never the first or the last
+    # bar: the last measure stays complete), possibly with a key signature at the double bar
+    first_half = None
+    if len(bars) >= 3 and rng.random() < 0.12:
+        j = rng.randint(1, len(bars) - 2)
+        bs, be = bars[j]
+        pu = rng.choice(unit_pool)
+        if (be - bs) // pu > 1:
+            cut = bs + pu * rng.randint(1, (be - bs) // pu - 1)
+            bars[j:j + 1] = [(bs, cut), (cut, be)]
+            first_half = j
+            if rng.random() < 0.5:
+                d["ks"].append([cut, rng.randint(-7, 7), rng.choice(["major", "minor", None])])
+    scheme, nums = measure_numbers(rng, len(bars), first_half)
+    d["measures"] = [[s, e, num] for (s, e), num in zip(bars, nums)]
+    d["shape"] = {"numbering": scheme if any(m[2] != i + 1 for i, m in enumerate(d["measures"])) else "pos",
+                  "rich": bool(rich), "split": first_half is not None}
     nid = 0
+    # round 5: what else the attribute list of an snote line carries (ornament names - one of them starts with `v` -,
+    # fermata, fingerings), notes without a voice or without a staff, staff numbers of two digits
+    decorated = rng.random() < 0.3
+    high_staves = rng.random() < 0.08
+    high_voices = rng.random() < 0.08
     for v in range(1, voices + 1):
         staff = rng.randint(1, staves)
+        if high_staves:
+            staff = rng.choice([10, 11, 12, 20, 25, rng.randint(9, 40)])
+        v_attr = None if rng.random() < 0.06 else (v + 9 * rng.randint(1, 3) if high_voices else v)
+        if rng.random() < 0.06:
+            staff = None
         open_tie = None
         for (bs, be) in bars:
             pos = bs
             while pos < be:
-                dur = min(rng.choice([1, 1, 2, 2, 3, 4, 6, 8]) * unit, be - pos)
+                if rich:
+                    dur = min(rng.choice([1, 1, 2, 2, 3, 4, 5, 7]) * rng.choice(unit_pool), be - pos)
+                else:
+                    dur = min(rng.choice([1, 1, 2, 2, 3, 4, 6, 8]) * unit, be - pos)
                 if rng.random() < 0.12:
-                    d["notes"].append({"id": "r%d" % nid, "t": pos, "dur": dur, "kind": "rest", "voice": v, "staff": staff})
+                    d["notes"].append({"id": "r%d" % nid, "t": pos, "dur": dur, "kind": "rest", "voice": v_attr, "staff": staff})
                     nid += 1
                     open_tie = None
                     pos += dur
                     continue
                 if rng.random() < 0.1:
                     d["notes"].append({"id": "g%d" % nid, "t": pos, "dur": 0, "kind": "grace", "step": rng.choice(STEPS),
-                                       "alter": rng.choice([-1, 0, 0, None, 1]), "oct": rng.randint(2, 6), "voice": v,
+                                       "alter": rng.choice([-1, 0, 0, None, 1]), "oct": rng.randint(2, 6), "voice": v_attr,
                                        "staff": staff, "grace_type": rng.choice(["grace", "acciaccatura", "appoggiatura"])})
                     nid += 1
                 nchord = 1 + (rng.random() < 0.25) + (rng.random() < 0.12)
@@ -297,7 +475,14 @@ def gen_part(rng, tier="quick"):
                                 break
                     used.add((step, octv))
                     n = {"id": "n%d" % nid, "t": pos, "dur": dur, "kind": "note", "step": step, "alter": alter,
-                         "oct": octv, "voice": v, "staff": staff}
+                         "oct": octv, "voice": v_attr, "staff": staff}
+                    if decorated and rng.random() < 0.3:
+                        if rng.random() < 0.6:
+                            n["orn"] = rng.sample(ALL_ORNAMENTS, rng.choice([1, 1, 2]))
+                        if rng.random() < 0.3:
+                            n["fermata"] = True
+                        if rng.random() < 0.4:
+                            n["fing"] = [rng.randint(0, 5) for _ in range(rng.choice([1, 1, 2]))]
                     r = rng.random()
                     if r < 0.2:
                         if rng.random() < 0.5:
@@ -328,9 +513,12 @@ def build_part(d):
 
         p = gen_score.build_part(d)
         arts = {n["id"]: n["art"] for n in d.get("notes", []) if n["kind"] == "note" and n.get("art")}
+        byid_d = {n["id"]: n for n in d.get("notes", [])}
         for o in p.iter_all(S.Note, include_subclasses=False):
             if o.id in arts:
                 o.articulations = list(arts[o.id])
+            if o.id in byid_d:
+                decorate(o, byid_d[o.id])
         return p
     p = S.Part(d["id"], part_name=d.get("name", d["id"]), quarter_duration=d["divs"])
     for t, b, bt in d.get("ts", []):
@@ -349,6 +537,7 @@ def build_part(d):
             o = S.Note(step=n["step"], octave=n["oct"], alter=n.get("alter"), **kw)
             if n.get("art"):
                 o.articulations = list(n["art"])
+            decorate(o, n)
         p.add(o, n["t"], n["t"] + n["dur"])
         byid[n["id"]] = o
     for n in d.get("notes", []):
@@ -510,6 +699,8 @@ def domain_ok(desc):
                 groups.setdefault(n["t"], []).append(float(np.float32(pn[a["performance_id"]]["on"])))
     if not any(a["label"] in ("match", "deletion") for a in desc["align"]):
         return False
+    if not fractions_in_format(desc):
+        return False
     means = sorted(sum(v) / len(v) for v in groups.values())
     # the implementation takes these means in float32: late in a recording two float32 numbers are up to a
     # millisecond apart, the means must stay distinct after that rounding
@@ -517,10 +708,41 @@ def domain_ok(desc):
     return all(b - a > gap for a, b in zip(means, means[1:]))
 
 
+def fractions_in_format(desc):
+    """every offset / duration fraction the exporter writes for a stored note has numerator and denominator <= 1024
+    (FractionalSymbolicDuration.bound_integers approximates beyond: outside the domain)"""
+    pd = desc["part"]
+    divs = pd["divs"]
+    byid = {n["id"]: n for n in pd["notes"]}
+    ts = sorted(pd["ts"])
+    meas = sorted(pd["measures"], key=lambda m: (m[0], m[1]))
+    for a in desc["align"]:
+        if a["label"] not in ("match", "deletion"):
+            continue
+        n = byid[a["score_id"]]
+        du, m = n["dur"], n
+        while m.get("tie"):
+            m = byid[m["tie"]]
+            du += m["dur"]
+        den = [x for x in ts if x[0] <= n["t"]][-1][2] if any(x[0] <= n["t"] for x in ts) else ts[0][2]
+        ms = max(m_[0] for m_ in meas if m_[0] <= n["t"])
+        rel = n["t"] - ms
+        off = Fraction((rel * den) % (4 * divs), 4 * divs * den)
+        for f in (off, Fraction(du, 4 * divs)):
+            if f.numerator > 1024 or f.denominator > 1024:
+                return False
+    return True
+
+
 def cases(rng, tier):
     for fn in sorted(os.listdir(FIXDIR)) if os.path.isdir(FIXDIR) else []:
         if fn.endswith(".match"):
             yield {"k": "fixture", "file": fn}
+    # the id of a performed note as written / read back (format_pnote_id), on arbitrary texts
+    for _ in range({"quick": 2, "thorough": 20}.get(tier, 2)):
+        r3 = random.Random(rng.randint(0, 2**31))
+        alphabet = "n0123456789abN-_xP"
+        yield {"k": "pid", "ids": ["".join(r3.choice(alphabet) for _ in range(r3.randint(0, 5))) for _ in range(40)]}
     n = {"quick": 400, "thorough": 15000, "search": 3000}.get(tier, 400)
     made = 0
     while made < n:
@@ -542,6 +764,10 @@ def cases(rng, tier):
             # a LOADED performance (its notes carry tick fields of the file's clock) saved again under another clock
             yield {"k": "resave", "base": desc, "ppq2": rng.choice([desc["ppq"], desc["ppq"], 2 * desc["ppq"]]),
                    "mpq2": rng.choice([desc["mpq"], 600000, 250000, 2 * desc["mpq"]])}
+        if made % 6 == 0:
+            # round 5: the same durations / offsets spelled with tuple divisors (1/4/3) and additive components
+            # (1/4+1/8): the reader's other duration paths; must load to the same score
+            yield {"k": "respell", "base": desc, "seed": rng.randint(0, 2**31)}
         if made % 7 == 0:
             # empty lines anywhere (also before the version line) change nothing: the reader skips them
             yield {"k": "blank", "base": desc, "at": ([0] if rng.random() < 0.6 else []) + [rng.randint(0, 40) for _ in range(rng.randint(0, 3))]}
@@ -799,15 +1025,16 @@ def canon_align(al):
     return sorted(out, key=repr)
 
 
-def oracle_rt(desc, res, v0=False):
-    """v0: the file is a synthesised version-0.x file (no text clauses; every ornament is a trill)"""
+def oracle_rt(desc, res, v0=False, text=True):
+    """v0: the file is a synthesised version-0.x file (no text clauses; every ornament is a trill);
+    text=False: the text of the file was edited after writing (kind "respell"): only what is loaded is judged"""
     import numpy as np
     import partitura.score as S
 
     F = []
     if "save_error" in res:
         return ["save: writing the match file raised %s" % res["save_error"]]
-    if ("load_error2" in res or "perf" not in res) and not v0:
+    if ("load_error2" in res or "perf" not in res) and not v0 and text:
         F += oracle_text(desc, res)
     if "load_error" in res:
         if "perf" in res and any(a["label"] in ("match", "deletion") for a in desc["align"]) and not grid_ok(desc):
@@ -821,7 +1048,7 @@ def oracle_rt(desc, res, v0=False):
         F.append("load: load_match(create_score=False) raised %s" % res["load_error2"])
         return F
     ppq, mpq = desc["ppq"], desc["mpq"]
-    if not v0:
+    if not v0 and text:
         F += oracle_text(desc, res)
     # ---- alignment
     want = canon_align([dict(a, type="trill") if v0 and a["label"] == "ornament" else a for a in desc["align"]])
@@ -920,6 +1147,7 @@ def oracle_rt(desc, res, v0=False):
             du += n["dur"]
         return du
 
+    saved_voices = set(byid[x].get("voice") for x in stored) - {None}
     for sid in stored:
         n = byid[sid]
         ln = lna.get(sid)
@@ -936,9 +1164,14 @@ def oracle_rt(desc, res, v0=False):
             F.append("score-duration: note %r loaded with %r beats, saved %r" % (sid, ldb, db))
         if (ln.step, ln.alter or 0, ln.octave) != (n["step"], n.get("alter") or 0, n["oct"]):
             F.append("score-spelling: note %r loaded as %r, saved %r" % (sid, (ln.step, ln.alter, ln.octave), (n["step"], n.get("alter"), n["oct"])))
-        if ln.voice != n["voice"]:
+        # a note without a voice / staff: the format stores nothing, the reader assigns one (not demanded)
+        if n.get("voice") is not None and ln.voice != n["voice"]:
             F.append("score-voice: note %r voice %r, saved %r" % (sid, ln.voice, n["voice"]))
-        if ln.staff != n["staff"]:
+        # "the same voices" as a partition: a note saved without a voice is not put into the voice of notes that have one
+        if n.get("voice") is None and ln.voice is not None and ln.voice in saved_voices:
+            F.append("score-voice: note %r was saved without a voice and is loaded in voice %r, which stored notes %r have" % (
+                sid, ln.voice, [x for x in stored if byid[x].get("voice") == ln.voice][:3]))
+        if n.get("staff") is not None and ln.staff != n["staff"]:
             F.append("score-staff: note %r staff %r, saved %r" % (sid, ln.staff, n["staff"]))
         if isinstance(ln, S.GraceNote) != (n["kind"] == "grace"):
             F.append("score-grace: note %r grace-ness changed" % sid)
@@ -1170,7 +1403,9 @@ def oracle_measures(desc, res, stored, v0=False):
     lm = sorted((Fraction(m.start.t).limit_denominator(10**6) / ldivs, Fraction(m.end.t).limit_denominator(10**6) / ldivs)
                 for m in lpart.iter_all(S.Measure))
     for (s0, e0), (s1, e1) in zip(lm, lm[1:]):
-        if e0 != s1 and bars_covered(desc):
+        # (round 5, split bars) the reader closes the last stored bar with the full length of its time signature; when that
+        # bar is the short half of a split bar the measure runs over whatever follows: judged for complete last bars only
+        if e0 != s1 and bars_covered(desc) and complete:
             F.append("measure-chain: loaded measures [%s, %s) and [%s, %s) (quarters) do not follow each other" % (s0, e0, s1, e1))
             break
     if not complete:
@@ -1266,10 +1501,22 @@ def bars_covered(desc):
             continue
         if not any(ms <= t < me for t in ts):
             return False
+    # round 5 (split bars): the first bar holding a stored note is the first measure of the loaded score.  When it is
+    # shorter than its time signature says and is not the score's pickup (the first half of a bar split by a double
+    # bar), Part.beat_map of the LOADED score counts it as an anacrusis: beat positions are then not comparable
+    # (the format stores no measure lengths); the quarter-position clauses still apply
+    first = next(i for i, (ms, me, _) in enumerate(meas) if any(ms <= t < me for t in ts))
+    ms, me, _ = meas[first]
+    sig = [x for x in sorted(pd["ts"]) if x[0] <= ms]
+    if sig and not (first == 0 and beats_exact(pd, meas[0][0]) < 0):
+        if Fraction(me - ms, pd["divs"]) != Fraction(4 * sig[-1][1], sig[-1][2]):
+            return False
     return True
 
 
 def finding_key(desc, failure):
+    if failure.startswith("respell: "):
+        return "C08/respell-" + failure.split(":")[1].strip()
     if failure.startswith("v0 "):
         # "v0 <version>: <clause>: ..." -> the clause, not the version
         return "C08/v0-" + failure.split(":")[1].strip()
@@ -1655,6 +1902,24 @@ def corr_dec(text, res, ev, desc=None, last_bar_end=True):
     if rt_body is not None:
         ev.requests.append("rtn " + rt_body)
         ev.impl.append(("@approx", vals, 1e-9))
+    # the score attributes (Model/MatchAttr.lean): attribute list of every snote, whether its duration is 0, the MIDI pitch
+    # of the loaded note -> staff (after add_staffs), voice (after the final assignment), staccato, accent, grace-ness
+    an = [(x, lna.get(str(x.Anchor))) for x in sn]
+    if all(n is not None for _, n in an) and len(set(str(x.Anchor) for x in sn)) == len(sn):
+        ev.requests.append("attrs %d %s" % (STAFF_SPLIT, W.lst(lambda p_: "%s %s %d" % (
+            W.lst(W.s, [str(a) for a in p_[0].ScoreAttributesList]), W.b(int(p_[0].Duration.numerator) == 0), int(p_[1].midi_pitch)), an)))
+        ev.impl.append(W.f_list(lambda p_: W.f_tuple(str(int(p_[1].staff)), W.f_opt(lambda v_: str(int(v_)), p_[1].voice),
+                                                       W.f_bool("staccato" in (p_[1].articulations or ())),
+                                                       W.f_bool("accent" in (p_[1].articulations or ())),
+                                                       W.f_bool(isinstance(p_[1], S.GraceNote))), an))
+    # the loaded durations in BINARY64 (Model/MatchFloat.lean: exact integer products, one rounded division, int()):
+    # the reader's divisions, per note the duration fraction and its additive components -> (tied) duration in divisions
+    dn = [(x, lna.get(str(x.Anchor))) for x in sn]
+    dn = [(x, n) for x, n in dn if n is not None]
+    if dn:
+        ev.requests.append("durf %d %s" % (divs, W.lst(lambda p: "%s %s" % (
+            fr(p[0].Duration), W.lst(lambda c: "%d %d %d" % (int(c[0]), int(c[1]), int(c[2] or 1)), p[0].Duration.add_components or [])), dn)))
+        ev.impl.append(W.f_list(lambda p: W.f_rat(W.as_fraction(p[1].duration_tied)), dn))
     rests = [r for r in lpart.iter_all(S.Rest) if r.start.t == 0 and r.id is None]
     ev.requests.append("decr " + body)
     ev.impl.append(("@approx", float(rests[0].end.t), 1e-9) if rests else "-")
@@ -1777,6 +2042,86 @@ def dedup_edit(seed, generic=False):
     return edit
 
 
+def respell_fraction(rng, txt, allow_sum=True):
+    """an equivalent spelling of the fraction `txt` ('n', 'n/d') as FractionalSymbolicDuration.from_string reads it:
+    a tuple divisor ('n/d1/t' with d = d1 * t) or a sum of components ('a/d+b/d', components possibly with tuple
+    divisors); every number stays <= 1024"""
+    f = Fraction(txt)
+    n, d = f.numerator, f.denominator
+    if n == 0:
+        return txt
+
+    def tup(n_, d_):
+        ts = [t for t in (3, 5, 7, 9, 2, 6, 10, 4) if d_ % t == 0]
+        if ts and rng.random() < 0.7:
+            t = rng.choice(ts)
+            return "%d/%d/%d" % (n_, d_ // t, t)
+        return "%d/%d" % (n_, d_)
+
+    r = rng.random()
+    if r < 0.4:
+        return tup(n, d)
+    if allow_sum and r < 0.9:
+        # split the value into 2-3 components over a common denominator (a multiple of d up to 1024)
+        m = rng.choice([k for k in (1, 1, 2, 3, 4) if d * k <= 1024 and n * k <= 1024])
+        N, D = n * m, d * m
+        if N < 2:
+            return tup(n, d)
+        parts = []
+        left = N
+        for _ in range(rng.choice([1, 1, 2])):
+            if left < 2:
+                break
+            a = rng.randint(1, left - 1)
+            parts.append(a)
+            left -= a
+        parts.append(left)
+        out = []
+        for a in parts:
+            g = Fraction(a, D)
+            out.append(tup(g.numerator, g.denominator) if rng.random() < 0.5 else "%d/%d" % (a, D))
+        return "+".join(out)
+    return txt
+
+
+def respell_edit(seed):
+    def edit(text):
+        rng = random.Random(seed)
+        out = []
+        for ln in text:
+            m = SNOTE_RE.search(ln) if ln.startswith("snote(") else None
+            if m is None or rng.random() < 0.3:
+                out.append(ln)
+                continue
+            off, dur = m.group(7), m.group(8)
+            # offsets: tuple divisors only (an offset is one fraction of a whole note)
+            off2 = respell_fraction(rng, off, allow_sum=False) if rng.random() < 0.5 else off
+            dur2 = respell_fraction(rng, dur) if rng.random() < 0.8 else dur
+            a, b = m.span(7)[0], m.span(8)[1]
+            out.append(ln[:a] + off2 + "," + dur2 + ln[b:])
+        return out
+    return edit
+
+
+def eval_respell(desc, ev):
+    """the loading half on the other spellings of a duration: tuple divisors and additive components"""
+    base = desc["base"]
+    res = save_and_load(base, edit_text=respell_edit(desc["seed"]))
+    if "text" not in res:
+        ev.key = None
+        return ev
+    ev.oracle = ["respell: " + f for f in oracle_rt(base, res, text=False)]
+    corr_load(res["text"], res.get("mf_lines"), ev)
+    if "score" in res:
+        corr_dec(res["text"], res, ev)
+    fields = [(m.group(7), m.group(8)) for m in (SNOTE_RE.search(ln) for ln in res["text"] if ln.startswith("snote(")) if m]
+    n_t = sum(1 for o, d in fields if any(c.count("/") == 2 for c in (o + "+" + d).split("+")))
+    n_s = sum(1 for o, d in fields if "+" in d)
+    ev.info["respell"] = [n_t, n_s]
+    ev.key = "respell:%s:%s" % (base.get("sub"), desc["seed"])
+    return ev
+
+
 def eval_dedup(desc, ev):
     base = desc["base"]
     res = save_and_load(base, edit_text=dedup_edit(desc["seed"]))
@@ -1790,32 +2135,42 @@ def eval_dedup(desc, ev):
 
 
 # ====================================================================== evaluate
-class _Timeout(BaseException):
-    pass
+CASE_CPU_LIMIT = 60
 
 
-CASE_TIMEOUT = 20
+def _preload():
+    """everything heavy is imported BEFORE a limit is armed: a limit that fires inside a first (lazy) import leaves
+    half-initialised modules behind and would be reported as a failure of code that is fine"""
+    import numpy  # noqa: F401
+    import scipy.interpolate  # noqa: F401
+    import scipy.sparse  # noqa: F401
+    import partitura  # noqa: F401
+    import partitura.score  # noqa: F401
+    import partitura.performance  # noqa: F401
+    import partitura.utils.music  # noqa: F401
+    import partitura.musicanalysis.performance_codec  # noqa: F401
+    import partitura.io.importmatch  # noqa: F401
+    import partitura.io.exportmatch  # noqa: F401
+    import partitura.io.matchlines_v0  # noqa: F401
+    import partitura.io.matchlines_v1  # noqa: F401
+    import partitura.io.matchfile_utils  # noqa: F401
+    import partitura.io.matchfile_base  # noqa: F401
+    import gen_score  # noqa: F401
 
 
 def evaluate(desc):
-    """every case runs under a wall-clock limit: a reader that does not terminate is a failure, not a hang"""
-    import signal
+    """every case runs under a limit of CPU time (user + system of this process, shared helper cpulimit: waiting for a
+    core on a loaded machine costs nothing): a writer / reader that does not terminate is a failure, not a hang"""
+    from cpulimit import run_limited, CpuTimeout
 
-    def _h(*a):
-        raise _Timeout()
-
-    old = signal.signal(signal.SIGALRM, _h)
-    signal.alarm(CASE_TIMEOUT)
+    _preload()
     try:
-        return evaluate_(desc)
-    except _Timeout:
+        return run_limited(CASE_CPU_LIMIT, evaluate_, desc)
+    except CpuTimeout:
         ev = Eval()
-        ev.oracle = ["timeout: writing/loading the match file did not finish within %d s" % CASE_TIMEOUT]
+        ev.oracle = ["timeout: writing/loading the match file used more than %d s of CPU time" % CASE_CPU_LIMIT]
         ev.key = None
         return ev
-    finally:
-        signal.alarm(0)
-        signal.signal(signal.SIGALRM, old)
 
 
 def evaluate_(desc):
@@ -1842,6 +2197,26 @@ def evaluate_(desc):
         dens = [x[2] for x in sorted(pd["ts"])]
         if any(a >= 8 and b <= 4 for a, b in zip(dens, dens[1:])):
             feats.append("eighths-then-quarters")
+        shape = pd.get("shape") or {}
+        feats.append("numbering:%s" % shape.get("numbering", "?"))
+        if shape.get("rich"):
+            feats.append("rich-rhythm")
+        if shape.get("split"):
+            feats.append("split-bar")
+        nn = [n for n in pd["notes"] if n["kind"] != "rest"]
+        if any(n.get("voice") is None for n in nn):
+            feats.append("note-without-voice")
+        if any(n.get("staff") is None for n in nn):
+            feats.append("note-without-staff")
+        if any((n.get("staff") or 0) >= 10 for n in nn):
+            feats.append("two-digit-staff")
+        if any((n.get("voice") or 0) >= 10 for n in nn):
+            feats.append("two-digit-voice")
+        if any(n.get("orn") or n.get("fermata") or n.get("fing") for n in nn):
+            feats.append("ornaments-fermata-fingering")
+        if "score" in res:
+            ld = int(res["score"][0]._quarter_durations[0])
+            feats.append("reader-divs:%s" % ("<=16" if ld <= 16 else "<=96" if ld <= 96 else "<=480" if ld <= 480 else "<=1250" if ld <= 1250 else ">1250"))
         ev.info["feats"] = feats
         ev.info["covered"] = bars_covered(desc)
         ev.info["grid"] = grid_ok(desc)
@@ -1863,6 +2238,20 @@ def evaluate_(desc):
         return ev
     if k == "resave":
         return eval_resave(desc, ev)
+    if k == "respell":
+        return eval_respell(desc, ev)
+    if k == "pid":
+        from partitura.io.matchfile_utils import format_pnote_id
+
+        ev.requests.append("pid " + W.lst(W.s, desc["ids"]))
+        ev.impl.append(W.f_list(lambda x: W.f_list(lambda c: str(ord(c)), format_pnote_id(x)), desc["ids"]))
+        # writing and reading the id again changes nothing more, ids that follow the convention are kept
+        for x in desc["ids"]:
+            y = format_pnote_id(x)
+            if format_pnote_id(y) != y or (x.startswith("n") and y != x):
+                ev.oracle.append("pid: performed note id %r is written as %r and read back as %r" % (x, y, format_pnote_id(y)))
+        ev.key = "pid:%s" % ",".join(desc["ids"][:6])
+        return ev
     if k == "v0":
         return eval_v0(desc, ev)
     if k == "fixture":
@@ -1982,6 +2371,10 @@ def distribution(descs, results):
             c["divs:%d" % d["part"]["divs"]] += 1
             for a in d["align"]:
                 c["label:" + a["label"]] += 1
+        if d["k"] == "respell":
+            rs = info.get("respell") or [0, 0]
+            c["respell:lines-with-tuple-divisor"] += rs[0]
+            c["respell:lines-with-additive-components"] += rs[1]
         if d["k"] == "dedup":
             c["dedup_dropped:%s" % min(info.get("n_dropped", 0), 5)] += 1
         if d["k"] == "v0":
@@ -2006,15 +2399,7 @@ if __name__ == "__main__":
         tot += 1
         if tot > n:
             break
-        import signal
-        def _h(*a): raise TimeoutError()
-        signal.signal(signal.SIGALRM, _h); signal.alarm(20)
-        try:
-            ev = evaluate(desc)
-        except TimeoutError:
-            print("TIMEOUT", desc.get("sub")); continue
-        finally:
-            signal.alarm(0)
+        ev = evaluate(desc)
         for f in ev.oracle:
             kk = finding_key(desc, f)
             cnt[kk] += 1
